@@ -308,6 +308,36 @@ def c18_validator_shape(ctx: Ctx):
                 if t == k or (k.startswith("'") and isinstance(el, ast.Constant) and repr(el.value) == k):
                     required[k] = True
     if not found_loop:
+        # equivalent form: `c = next((ch for ch in <list> if ch is not None and ch in key), None)` followed by a
+        # raise whenever c is not None (the raise dominates the normal exit through the exit facts)
+        for n in walk_local(v.node):
+            if isinstance(n, ast.Assign) and isinstance(n.targets[0], ast.Name) and isinstance(n.value, ast.Call) \
+                    and dotted(n.value.func) == 'next' and len(n.value.args) == 2 and isinstance(n.value.args[0], ast.GeneratorExp) \
+                    and isinstance(n.value.args[1], ast.Constant) and n.value.args[1].value is None:
+                ge = n.value.args[0]
+                gen = ge.generators[0]
+                it = expand_locals(g, rd, gen.iter, g.primary(n))
+                if not isinstance(it, (ast.List, ast.Tuple, ast.Set)) or not isinstance(gen.target, ast.Name) or len(ge.generators) != 1:
+                    continue
+                cv = gen.target.id
+                from ..engine import formula_of
+                from ..formula import f_and
+                have_c = f_and(*[fb.build(i) for i in gen.ifs]) if gen.ifs else TRUE
+                need_c = formula_of(ctx, v, f'({cv} is not None) and ({cv} in {kparam})')
+                elt_ok = isinstance(ge.elt, ast.Name) and ge.elt.id == cv
+                # the found character being not None must raise: exit facts imply `found is None`
+                found = n.targets[0].id
+                exit_ok = implies(facts.formula_at(g.exit, fb), formula_of(ctx, v, f'{found} is None'))
+                okn = implies(need_c, have_c) and elt_ok and exit_ok
+                found_loop = True
+                yield ctx.ob('C18.VALIDATOR-SHAPE', okn, v, n, 'every listed character found in the key raises',
+                             '' if okn else 'the first-match search does not cover every listed character, or a match does not raise')
+                for el in it.elts:
+                    t = src(el)
+                    for k in required:
+                        if t == k or (k.startswith("'") and isinstance(el, ast.Constant) and repr(el.value) == k):
+                            required[k] = True
+    if not found_loop:
         yield ctx.ob('C18.VALIDATOR-SHAPE', False, v, v.node, 'forbidden-character scan',
                      'no loop over a literal list of forbidden characters that raises was found', construct='no-char-loop')
     else:
